@@ -279,6 +279,7 @@ func run(c *core.Case) {
 		}
 	}
 	c.Count("stale_read_probes_issued_while_fresh_leader_had_unapplied_backlog", tr.ProbeBacklogs)
+	c.Count("stale_read_probes_answered_while_fresh_leader_was_behind", tr.ProbeReadsServedBehind)
 	for _, pr := range tr.Probes {
 		c.Count("stale_read_probes", 1)
 		c.Count("stale_read_probe_outcomes(write-old/read-new/write-new/read-old)."+pr, 1)
